@@ -38,6 +38,8 @@ DOCS = [
     '<?xml version="1.0"?><!--pre--><?p1 a?><!DOCTYPE r [<!ENTITY e "E"><!ATTLIST r d CDATA "dflt">]><!--mid--><r a="x&amp;y&#65;&e;"> <k/> <k> </k>\n<!--in--><?p2?></r><!--post--><?p3 z?>',
     # 5: prefixes re-declared and un-declared at several depths; the same local name in three namespaces
     '<a xmlns="u1" xmlns:p="u2"><p:a xmlns:p="urn:p"><a xmlns=""><p:a/><a xmlns="urn:q" p:z="1" z="2"/></a></p:a><p:a><q:a xmlns:q="urn:p"/></p:a></a>',
+    # 6: an element with a matching child AFTER a nested element of the same name (context nodes that nest)
+    '<r><a><b id="1"/><a><b id="2"/><c/></a><b id="3"/></a><a><b id="4"/></a></r>',
 ]
 
 AXES = ['ancestor', 'ancestor-or-self', 'attribute', 'child', 'descendant', 'descendant-or-self', 'following', 'following-sibling',
@@ -47,13 +49,15 @@ TESTS = {0: ['*', 'node()', 'text()', 'comment()', 'processing-instruction()', "
          2: ['*', 'node()', 'text()', 'n', 'y'],
          3: ['*', 'node()', 'a', 'b', 's', 'i'],
          4: ['*', 'node()', 'text()', 'comment()', 'processing-instruction()', "processing-instruction('p2')", 'k', 'a', 'd'],
-         5: ['*', 'node()', 'a', 'p:a', 'q:a', 'p:*', 'q:*', 'p:z', 'z']}
+         5: ['*', 'node()', 'a', 'p:a', 'q:a', 'p:*', 'q:*', 'p:z', 'z'],
+         6: ['*', 'node()', 'a', 'b', 'c', 'id']}
 CONTEXTS = {0: ['/', '/r', '//a', '//b', '//c', '//@x', '//text()', '//comment()', '/r/e/a', '//processing-instruction()'],
             1: ['/', '/*', '//p:a', '//a', '//*', '//@*'],
             2: ['/', '/r', '//y', '//n', '//text()'],
             3: ['/', '//s', '//a', '//b', '//a[@i=3]', '//a[@i=6]', '//@i'],
             4: ['/', '/r', '//k', '//comment()', '//processing-instruction()', '//text()', '//@*', '/comment()[1]', '/processing-instruction()[last()]'],
-            5: ['/', '/*', '//*', '//p:a', '//q:a', '//a', '//@*']}
+            5: ['/', '/*', '//*', '//p:a', '//q:a', '//a', '//@*'],
+            6: ['/', '//a', '//b', '//c', '//@id', '(//a)', '(//a | //b)', '(//*)', '(//a)[2]', '(//a//*)']}
 PREDS = ['', '[1]', '[2]', '[last()]', '[position()>1]', '[position()=last()-1]', '[@x]', '[not(@*)]', "[.='1']", '[a]', '[text()]', '[1][1]', '[2][1]', '[last()][1]',
          '[position() mod 2 = 1]', '[true()]', '[0]', '[1.5]', "['']", "['x']", '[count(*)]', '[.//a]', '[../a]', '[self::a or self::b]', '[string-length() > 1]']
 
@@ -84,7 +88,7 @@ def exprs_for(di):
             # (under xmlns="" both oracles count the un-declaration as a namespace node; XPath 1.0 5.4 says there is none)
             out.append(f'count({ctx}/namespace::*)' if ctx != '/' else 'count(/namespace::*)')
     # two steps: every pair of axes from a few context paths
-    two = {0: ['//a', '//b', '//@x', '//text()'], 3: ['//a', '//@i', '//b'], 4: ['//k', '/comment()', '//@*'], 5: ['//p:a', '//@*']}.get(di, [])
+    two = {0: ['//a', '//b', '//@x', '//text()', '(//a | //b)', '(//*)'], 3: ['//a', '//@i', '//b', '(//a)', '(//s | //a)'], 4: ['//k', '/comment()', '//@*'], 5: ['//p:a', '//@*'], 6: ['//a', '(//a)', '(//*)', '(//a | //c)']}.get(di, [])
     for ctx in two:
         for ax1 in AXES:
             for ax2 in AXES:
@@ -135,6 +139,10 @@ CURATED = {
         'namespace-uri(//a[1])', 'name(/*/*[1])', 'name(/*/*[2])', 'name(/*/*[2]/*)', 'local-name(/*/*[2]/*)', 'namespace-uri(/*/*[2]/*)', '//@p:z', '//@z', '//@*', 'namespace-uri(//@p:z)', 'namespace-uri(//@z)', 'name(//@p:z)', 'name(//@z)',
         '//*[@p:z]', '//*[@z]', '//q:a/@q:z', '//q:a/@*', '//*[name() = "p:a"]', 'count(//*[name() = "p:a"])', '//*[name() = "q:a"]', '//*[name() = "a"]', '//p:a/p:a', '//p:a//p:a', '//p:a/ancestor::p:a', '//p:a/descendant::*',
         '//q:a/ancestor::*', '//q:a/preceding::*', '//q:a/following::*', '//p:a[p:a]', '//p:a[not(*)]', '//*[self::p:a]', '//*[self::q:a or self::a]', 'count(//*[self::p:a or self::q:a])'],
+    6: ['(//a)/b', '((//a)/b)[2]', '((//a)/b)[last()]', '(//a)/b[1]', '(//a)/b[last()]', '(//a)/*', '(//a)//b', '(//a)/a/b', '(//a)/b/@id', '((//a)/b/@id)[2]', '(//a | //c)/..', '(//b)/..', '((//b)/..)[1]', '(//b)/../b',
+        '((//b)/../b)[3]', '(//a)/b | (//a)/c', '(//a)/child::b', '(//a)/self::a/b', '(//a)/descendant::b', '((//a)/descendant::b)[2]', '(//*)/b', '((//*)/b)[3]', '(//a)[1]/b', '(//a)[2]/b', '(//a)[last()]/b',
+        'count((//a)/b)', 'string(((//a)/b)[2]/@id)', 'string(((//a)/b)[3]/@id)', 'sum((//a)/b/@id)', '(//a/b)[2]', '//a/b[2]', '//a/b', '//a//b', '(//a//b)[3]', '(/r/a | /r/a/a)/b', '((/r/a | /r/a/a)/b)[2]', '(/r/a/a | /r/a)/b',
+        '(//b)/preceding-sibling::*', '((//b)/preceding-sibling::*)[1]', '(//b)/following-sibling::*', '(//c)/ancestor::a/b', '((//c)/ancestor::a/b)[1]', '(//c)/ancestor::*', '((//c)/ancestor::*)[1]', '(//b | //c)/parent::a/b'],
     3: ['//a[1]', '//a[2]', '//a[last()]', '(//a)[1]', '(//a)[2]', '(//a)[last()]', '(//a)[last()-1]', '//s/a[2]', '//s[2]/a', '//s[a][2]', '//s[2][a]', '//s[last()]', '//s[not(*)]', '//a[a]', '//a/a', '//a//a', '//s//a[1]', '//s/descendant::a[1]',
         '//s/descendant::a[last()]', '//a[@i=3]/ancestor::*', '//a[@i=3]/ancestor::*[1]', '//a[@i=3]/ancestor::*[2]', '//a[@i=3]/ancestor::*[last()]', '//a[@i=3]/ancestor-or-self::a', '//a[@i=3]/ancestor-or-self::a[1]', '//a[@i=3]/ancestor-or-self::a[2]',
         '//a[@i=6]/preceding::a', '//a[@i=6]/preceding::a[1]', '//a[@i=6]/preceding::a[2]', '//a[@i=6]/preceding::a[last()]', '(//a[@i=6]/preceding::a)[1]', '(//a[@i=6]/preceding::a)[last()]', '//a[@i=4]/preceding-sibling::*', '//a[@i=4]/preceding-sibling::*[1]',
